@@ -60,6 +60,11 @@ def gen_cases(tier, seed):
             c['ic'] = ['rho', 'sets', 'sets'][j % 3]
             c['full'] = (j // 3) % 2 == 0
             c['tcount'] = 5
+            c['r0only'] = (j % 6 == 5)        # initially recovered nodes given, the index case left to the default
+            if c['r0only'] and not c.get('R0'):
+                rest = [i for i in range(c['graph']['n']) if i not in c['I0']]
+                if len(rest) > 1:
+                    c['R0'] = sorted(r.sample(rest, min(2, len(rest) - 1)))
             if j % 4 == 1 and 'homogeneous' not in name:
                 # isolated nodes: degree class 0 is where guards such as `x[x==0] = 1` write into arrays (the caller's, if not copied)
                 g = dict(c['graph'])
@@ -172,6 +177,10 @@ def run_case(case):
         name, f, args, kw, G = call.name, call.f, call.args, call.kw, call.G
         deterministic = True
         mode = 'full' if call.full else 'plain'
+        r0only = bool(case.get('r0only') and kw.get('initial_recovereds') is not None and len(kw['initial_recovereds']) and 'initial_infecteds' in kw)
+        if r0only:
+            del kw['initial_infecteds']
+            bump(res, 'ode_calls_with_only_initial_recovereds')
     else:
         name = case['entry']
         G, lab = gen.build_graph(case['graph'])
@@ -218,6 +227,9 @@ def run_case(case):
         if kind == 'sim' and overlap:
             bump(res, 'overlapping_initial_sets_rejected')       # rejecting the inconsistent request is fine
             return res
+        if kind == 'ode' and r0only:
+            bump(res, 'only_initial_recovereds_rejected')
+            return res
         viol(res, '%s|first_call|exception:%s' % (tag, simcase.exc_key(e)), {'err': repr(e)[:200]})
         return res
     if any('ODEint' in str(w.category) or 'lsoda' in str(w.message).lower() for w in wl):
@@ -234,8 +246,8 @@ def run_case(case):
         argkind = before[changed[0]][0]
         viol(res, '%s|argument_modified|%s' % (tag, argkind if argkind != 'ndarray' else 'ndarray:' + ('shape' if before[changed[0]][1] != after[changed[0]][1] else 'values')),
              {'changed': what[:3]})
-    # second call with the very same objects
-    simcase.seed_all(case['seed'])
+    # second call with the very same objects (a deterministic model returns the same whatever the state of the global generators)
+    simcase.seed_all(case['seed'] + (1 if kind == 'ode' else 0))
     try:
         with warnings.catch_warnings():
             warnings.simplefilter('ignore')
